@@ -795,7 +795,9 @@ def eager_reduction_tensor(op, arg):
     dtype = find_domain(op, arg.output).dtype
 
     if not arg.output.shape:
-        return Tensor(op(ops.unsqueeze(arg.data, -1), -1), arg.inputs, dtype)
+        data = op(ops.unsqueeze(arg.data, -1), -1)
+        # With keepdims=True the temporary axis survives; a scalar stays a scalar.
+        return Tensor(data.reshape(arg.data.shape), arg.inputs, dtype)
 
     if not arg.inputs:
         return Tensor(op(arg.data), arg.inputs, dtype)
